@@ -20,7 +20,18 @@ core.use_repo()
 from skchange.change_detectors.base import ChangeDetector  # noqa: E402
 
 STATS = {"mean": np.mean, "sum": np.sum, "range": lambda v: float(np.max(v) - np.min(v)), "first": lambda v: float(v[0])}
-NPSTATS = {"mean": np.mean, "median": np.median, "std": np.std, "var": np.var, "max": np.max, "absmean": lambda v: float(np.abs(v).mean())}
+def _std1(v):
+    with np.errstate(all="ignore"):
+        import warnings
+
+        with warnings.catch_warnings():
+            warnings.simplefilter("ignore")
+            return float(np.std(v, ddof=1))  # NaN on a one-sample segment
+
+
+# statistics that can be undefined (NaN) on a segment: NaN is neither below the lower nor above the upper bound
+NPSTATS = {"mean": np.mean, "median": np.median, "std": np.std, "var": np.var, "max": np.max, "absmean": lambda v: float(np.abs(v).mean()),
+           "std-ddof1": _std1, "mean-if-3": lambda v: float(np.mean(v)) if len(v) >= 3 else float("nan")}
 
 
 class FixedChangeDetector(ChangeDetector):
